@@ -38,21 +38,6 @@ impl Opt {
     pub fn deviations(&self) -> usize {
         self.d.iter().filter(|&&x| x != 0).count()
     }
-    pub fn key(&self) -> String {
-        self.d.iter().map(|x| x.to_string()).collect::<Vec<_>>().join(".")
-    }
-    pub fn json(&self) -> Value {
-        json!({
-            "target": self.target(),
-            "compression": COMP_OV[self.d[1] as usize],
-            "block_size": BS_OV[self.d[2] as usize],
-            "skip_encrypted": self.skip_encrypted(),
-            "skip_signatures": self.skip_signatures(),
-            "verify": self.verify(),
-            "list_only": self.list_only(),
-            "preserve_order": self.preserve_order(),
-        })
-    }
     /// the format version the options request for a source of version `src` (0..4)
     pub fn requested_version(&self, src: usize) -> usize {
         match self.d[0] {
